@@ -476,7 +476,19 @@ func fromEndField(ctx *matchCtx, args []string, fromHead bool, final bool) any {
 	if n < 1 {
 		n = 1
 	}
-	rows, _ := rowsLabels(ctx, final)
+	rows, labels := rowsLabels(ctx, final)
+	// A symbol-qualified argument (FIRST(B.v)) navigates over the rows mapped to
+	// that symbol (or SUBSET) only, as the symbol-qualified aggregates do.
+	if qf, symbol := fieldAndSymbol(args[0]); symbol != "" && (ctx.symbols[symbol] || ctx.subsets[symbol] != nil) {
+		f = qf
+		sel := make([]map[string]any, 0, len(rows))
+		for i, r := range rows {
+			if labelMatches(labels[i], symbol, ctx.subsets) {
+				sel = append(sel, r)
+			}
+		}
+		rows = sel
+	}
 	if len(rows) == 0 {
 		return nil
 	}
